@@ -324,7 +324,14 @@ def esig(fn, v, depth=0):
     if d is None: return ('p', v[1])
     if d.op == 'alloca': return ('l', d.res)
     if d.op in ('sext', 'zext', 'trunc', 'bitcast'): return esig(fn, d.ops[0], depth + 1)
-    if d.op == 'load': return ('ld', esig(fn, d.ops[0], depth + 1))
+    if d.op == 'load':
+        # a named temporary (`int sc = scon_stk[i];`: one assignment, address never taken; not a parameter spill) has the
+        # signature of the value assigned to it (neutral diff m5P4)
+        a_ = fn.def_of(d.ops[0]) if isinstance(d.ops[0], tuple) and d.ops[0][0] == 'reg' else None
+        if a_ is not None and a_.op == 'alloca' and not str(a_.res).endswith('.addr'):
+            tv = flow.named_temporary(fn, d)
+            if tv is not None and tv[0] == 'reg' and fn.def_of(tv) is not None: return esig(fn, tv, depth + 1)
+        return ('ld', esig(fn, d.ops[0], depth + 1))
     if d.op == 'getelementptr': return ('gep',) + tuple(esig(fn, o, depth + 1) for o in d.ops)
     if d.op in ('call', 'invoke'): return ('call', d.callee if isinstance(d.callee, str) else '?', id(d))
     if d.op in ('phi', 'select'): return (d.op, id(d))
